@@ -291,11 +291,14 @@ def s_encrypted_aes256():
     return _encrypted("encrypted-aes256", 5, 6, 256, "AESV3", "table")
 
 
-def _jbig2_segment(number, seg_type, data, page=1):
-    """One JBIG2 segment: number (4), flags (1), referred-to count/retention (1), page association (1), data length (4)."""
+def _jbig2_segment(number, seg_type, data, page=1, refs=()):
+    """One JBIG2 segment: number (4), flags (1), referred-to count/retention (1), referred-to segment numbers
+    (1, 2 or 4 bytes each, by the size of this segment's number), page association (1), data length (4)."""
     import struct
 
-    return struct.pack(">LBBBL", number, seg_type, 0, page, len(data)) + data
+    size = 1 if number <= 256 else 2 if number <= 65536 else 4
+    refbytes = b"".join(r.to_bytes(size, "big") for r in refs)
+    return struct.pack(">LBB", number, seg_type, len(refs) << 5) + refbytes + struct.pack(">BL", page, len(data)) + data
 
 
 JPEG_BLOB = bytes.fromhex("ffd8ffe000104a46494600010100000100010000ffdb004300") + bytes(range(1, 65)) + bytes.fromhex("ffc0000b080002000301011100ffda0008010100003f00d2cf20ffd9")
@@ -315,7 +318,7 @@ def s_images():
     content += b" q 40 0 0 30 20 400 cm /Im3 Do Q q 40 0 0 30 80 400 cm /Im12 Do Q"
     g4 = bytes.fromhex("c0040040")  # two all-white rows of 8 pixels (V0 V0) followed by EOFB
     globals_ = _jbig2_segment(0, 0, b"\x00\x01\x02\x03")
-    page_seg = _jbig2_segment(1, 48, bytes(19)) + _jbig2_segment(2, 38, bytes(22)) + _jbig2_segment(3, 49, b"")
+    page_seg = _jbig2_segment(1, 48, bytes(19)) + _jbig2_segment(2, 38, bytes(22), refs=(0,)) + _jbig2_segment(3, 6, bytes(10), refs=(0, 2)) + _jbig2_segment(4, 49, b"")
     o = {
         1: {b"Type": Name(b"Catalog"), b"Pages": Ref(2, 0)},
         2: {b"Type": Name(b"Pages"), b"Kids": [Ref(3, 0)], b"Count": 1},
